@@ -118,3 +118,68 @@ def structural_cells(tier: str, seed: int):
                         cells.append(_cell(spec, "alone", lv, cls, contraction, seed,
                                            {"kind": "structural", "what": what, "entry": "self", "targets": [LY.rename(spec, tgt)]}, variant=what))
     return cells
+
+
+MEASURE_FLAGS = [{}, {"separate_measurement": True}, {"destructive": False}, {"separate_measurement": True, "destructive": False}]
+
+
+def measure_cells(tier: str, seed: int):
+    """C04 / C05 / C18: every entry point x layout x level x flags; every outcome branch is explored by
+    the caller (run.explore_outcomes)."""
+    cells = []
+    quick = tier == "quick"
+    n = 0
+    plans = []    # (entry, targets, noargs)
+    for t in ALL5:
+        plans.append(("self", [t], False))
+        plans.append(("ce", [t], False))
+    for combo in (["e0.f", "e1.p"], ["e1.p", "e0.p"], ["c0", "e0.f"], ["e0.f", "e0.p"], ["e0.p", "e1.f", "c0"], ["e1.f", "e0.f"]):
+        plans.append(("ce", combo, False))
+    for e in ("e0", "e1"):
+        plans.append(("env", [f"{e}.f"], False))
+        plans.append(("env", [f"{e}.p"], False))
+        plans.append(("env", [f"{e}.f", f"{e}.p"], False))
+        plans.append(("env", [f"{e}.f"], True))
+    for si, (tag, blocks) in enumerate(LY.STRUCTS):
+        for ltag, levels, dl in LY.level_settings(blocks, [], tier):
+            for pi, (entry, tg, noargs) in enumerate(plans):
+                for fi, flags in enumerate(MEASURE_FLAGS):
+                    n += 1
+                    if quick and n % 5 != 0:
+                        continue
+                    for cls in _cls_opts(ltag, quick, extra=(["neg"] if quick and ltag == "V" and n % 2 else [])):
+                        spec = LY.make_spec(blocks, levels, {}, default_level=dl, default_cls=cls, bystander=(n % 7 == 0),
+                                            fock_dims={"e0": 2, "e1": 3})
+                        a = {"kind": "measure", "entry": entry, "targets": [LY.rename(spec, t) for t in tg], "flags": flags}
+                        if noargs:
+                            a["noargs"] = True
+                            a["env"] = int(tg[0][1])
+                            a["targets"] = [LY.rename(spec, tg[0])]
+                        cells.append(_cell(spec, tag, ltag, cls, bool(n % 2), seed, a,
+                                           flags=",".join(sorted(k[:3] for k, v in flags.items() if v is not None and (v if k.startswith("sep") else not v))) or "default",
+                                           reordered=True))
+    # standalone envelopes and subsystems
+    for order, tag in ((["e0.f", "e0.p"], "envalone01"), (["e0.p", "e0.f"], "envalone10"), (None, "alone")):
+        for lv, clss in (("V", ["pure", "neg"]), ("M", ["mixed", "pure"]), ("L", ["basis"])):
+            for cls in clss:
+                if order is None:
+                    spec = LY.make_spec([], {}, {}, envs=("e0",), customs=("c0",), composite=False, default_level=lv, default_cls=cls,
+                                        fock_dims={"e0": 3})
+                elif lv == "L":
+                    continue
+                else:
+                    spec = LY.make_spec([("env", order)], {order[0]: lv}, {order[0]: cls}, envs=("e0",), customs=(), composite=False,
+                                        fock_dims={"e0": 3})
+                plans2 = [("self", ["e0.f"], False), ("self", ["e0.p"], False), ("env", ["e0.f"], False), ("env", ["e0.p"], False),
+                          ("env", ["e0.f", "e0.p"], False), ("env", ["e0.f"], True)]
+                if order is None:
+                    plans2.append(("self", ["c0"], False))
+                for entry, tg, noargs in plans2:
+                    for flags in MEASURE_FLAGS:
+                        a = {"kind": "measure", "entry": entry, "targets": [LY.rename(spec, t) for t in tg], "flags": flags}
+                        if noargs:
+                            a["noargs"] = True
+                            a["env"] = 0
+                        cells.append(_cell(spec, tag, lv, cls, True, seed, a,
+                                           flags=",".join(sorted(k[:3] for k, v in flags.items() if (v if k.startswith("sep") else not v))) or "default"))
+    return cells
